@@ -1480,6 +1480,11 @@ class ktensor:
         [[ 0.70710678...  0.70710678...]
          [ 0.70710678... -0.70710678...]]
         """
+        if not (0 <= n < self.ndims) or not (1 <= r <= self.shape[n]):
+            assert False, (
+                "Mode n must be a mode of the tensor and r between 1 and the "
+                "size of that mode"
+            )
         M = self.weights[:, None] @ self.weights[:, None].T
         for i in range(self.ndims):
             if i != n:
